@@ -118,6 +118,12 @@ impl EntityReactionAccessTracker
     }
 }
 
+#[cfg(feature = "verif")]
+impl EntityReactionAccessTracker
+{
+    pub(crate) fn verif_state(&self) -> (usize, bool) { (self.prepared.len(), self.currently_reacting) }
+}
+
 impl Default for EntityReactionAccessTracker
 {
     fn default() -> Self
